@@ -26,6 +26,7 @@ func checkC17(c *Ctx) {
 	c.Rule("C17/R5", "map order: every map range in the package is order-independent; metricOf's first-match pick over the suffix table is allow-listed with the side obligation that at most one entry can match")
 
 	c.Rule("C17/R6", "quartile interpolation (R8): with k the integer part of 1/3 + p(N+1/3), Percentile returns x[0] for k <= 0, x[N-1] for k >= N and x[k-1] + frac (x[k] - x[k-1]) otherwise — evaluated for N = 5 and every k from -1 to 6 by answering the clamp conditions from (k, N)")
+	c.Rule("C17/R9", "retained values stay in input order (same rule as C12/R8): the quartile computation sorts a copy, never the measurements it was handed")
 	c.Rule("C17/R8", "the delta tests see the retained values only: nothing on the way from TTest/UTest (including methods of adapter types they hand to the statistics package) reads Metrics.Values")
 	c.Rule("C17/R7", "the geometric mean behind the geomean row accumulates in the log domain (same rule as C12/R7): no running product of raw means")
 	p := mustLoad(c, loadOpts{}, "./benchstat", "./internal/stats", "./storage/benchfmt")
@@ -38,6 +39,7 @@ func checkC17(c *Ctx) {
 	c12GeoMean(c, p, "C17/R7")
 	c17ByDelta(c, p)
 	c17Retained(c, p)
+	c12NoReorder(c, p, "C17/R9")
 }
 
 func c17Sort(c *Ctx, p *Prog) {
